@@ -29,6 +29,7 @@ def run(ctx):
     c_v2_rails(ctx)
     d_flag(ctx)
     e_hide_prev_turn(ctx)
+    e_marker_propagates(ctx)
 
 
 # ---------------------------------------------------------------------------------
@@ -346,3 +347,49 @@ def e_hide_prev_turn(ctx):
                 ("`%s`: the cut position %s %s; positions in another list shift after an earlier cut, so a second failure hides the wrong span and earlier (blocked/failed) turns re-enter the conversation" % (
                     src(c), idx, "is a position in `%s`, not in `%s`" % (prov.get(bad[0]), L) if bad else "is not derived from a scan of `%s` for the last user utterance" % L))
             ctx.check("C03.e.hide-prev-turn", FL1, "compute_next_steps", src(c), ok, msg, line=c.lineno)
+
+
+def e_marker_propagates(ctx):
+    """The `hide_prev_turn` marker produced with the internal-error result must reach the history
+    that the next turn replays: producer -> generate_events result -> stored events."""
+    t = ctx.tree.ast(RT1)
+    prod = find_function(t, "_internal_error_action_result")
+    ok = prod is not None and any(isinstance(d, ast.Dict) and any(isinstance(v, ast.Constant) and v.value == "hide_prev_turn" for v in d.values) for d in ast.walk(prod))
+    ctx.check("C03.e.marker", RT1, "RuntimeV1_0._internal_error_action_result", "hide_prev_turn produced", ok,
+              "the internal-error action result carries the `hide_prev_turn` marker", line=(prod.lineno if prod else 1))
+    fn = find_function(t, "generate_events")
+    if fn is None:
+        raise AnalysisError("generate_events (v1) not found", anchor=RT1 + "::generate_events")
+    rets = [r for r in walk_no_nested(fn) if isinstance(r, ast.Return) and r.value is not None]
+    ctx.floor("C03.e.marker", RT1, "returns of generate_events", len(rets), 1)
+    for r in rets:
+        ok = isinstance(r.value, ast.Name)
+        acc = r.value.id if ok else None
+        if ok:
+            # the accumulator receives every batch of next events, unfiltered
+            exts = [c for c in walk_no_nested(fn) if isinstance(c, ast.Call) and isinstance(c.func, ast.Attribute) and c.func.attr == "extend" and src(c.func.value) == acc]
+            ok = bool(exts) and all(isinstance(c.args[0], ast.Name) for c in exts)
+            rebinds = [a for a in walk_no_nested(fn) if isinstance(a, ast.Assign) and any(isinstance(x, ast.Name) and x.id == acc for x in a.targets)
+                       and not (isinstance(a.value, ast.List) and not a.value.elts)]
+            ok = ok and not rebinds
+        ctx.check("C03.e.marker", RT1, "RuntimeV1_0.generate_events", src(r), ok,
+                  "generate_events returns the accumulated events unfiltered (the marker reaches the caller's history)" if ok else
+                  "generate_events returns `%s`, not the unfiltered accumulator: the `hide_prev_turn` marker is lost, so the failed turn stays in the replayed history and poisons the next turn" % src(r.value),
+                  line=r.lineno)
+    # LLMRails stores the new events in the history used for the next turn
+    LR = "nemoguardrails/rails/llm/llmrails.py"
+    tl = ctx.tree.ast(LR)
+    g = find_function(tl, "generate_async")
+    calls = [a for a in walk_no_nested(g) if isinstance(a, ast.Assign) and isinstance(a.value, ast.Await) and isinstance(a.value.value, ast.Call)
+             and src(a.value.value.func) == "self.runtime.generate_events" and isinstance(a.targets[0], ast.Name)]
+    ctx.floor("C03.e.marker", LR, "v1 generate_events call in generate_async", len(calls), 1)
+    for c in calls:
+        nv = c.targets[0].id
+        ext = [x for x in walk_no_nested(g) if isinstance(x, ast.Call) and isinstance(x.func, ast.Attribute) and x.func.attr == "extend"
+               and [src(a) for a in x.args] == [nv] and x.lineno > c.lineno]
+        ok = bool(ext)
+        hv = src(ext[0].func.value) if ok else None
+        stored = [a for a in walk_no_nested(g) if isinstance(a, ast.Assign) and ((isinstance(a.targets[0], ast.Subscript) and "events_history_cache" in src(a.targets[0]))
+                                                                                  or (isinstance(a.value, ast.Dict) and "'events'" in src(a.value))) and hv is not None and hv in src(a.value)]
+        ctx.check("C03.e.marker", LR, "LLMRails.generate_async", first_line(c), ok and len(stored) >= 2,
+                  "all new events (incl. the marker) are appended to `%s`, which is what the cache / the returned state keep for the next turn" % hv, line=c.lineno)
